@@ -9,8 +9,9 @@ PROPERTY = "C06"
 READY = True
 THEOREMS = [
     "C06.order_irrefl", "C06.order_asymm", "C06.order_trans", "C06.order_weak", "C06.order_total",
-    "C06.order_numeric", "C06.order_num_lt_word", "C06.splitItems_word", "C06.order_release_lt_master",
-    "C06.order_sorted", "C06.no_nonmatching", "C06.at_most_once_partial",
+    "C06.order_numeric", "C06.order_num_lt_word", "C06.order_release_lt_master", "C06.order_sorted",
+    "C06.report_branches", "C06.no_nonmatching", "C06.only_matching", "C06.under_minimal_build",
+    "C06.exactly_once", "C06.not_merged_exact", "C06.at_most_once",
 ]
 TEXT = "BUG-7"
 RULE = ("random commit graphs (6-16 commits, 8% extra roots, 30% merges incl. octopus, random parent order, 30% build tags, "
@@ -376,6 +377,24 @@ def tags(case, replies):
         yield "has-merge"
 
 
-LEVEL_TEXT = "under construction"
-LEVEL_NOTE = "under construction"
-TECHNIQUE = "Lean 4 theorems on an executable model of RGraph + correspondence check on random histories"
+LEVEL_TEXT = ("All clauses of the property are kernel-checked Lean theorems about the executable model of RGraph that the driver "
+              "runs (DFS over git parents with the repository caches, _mk_rcommits, _find_new_rcommits_in_build, the 'not merged' "
+              "pseudo build, branch ordering), for every topologically numbered history, every placement of tags/matches/heads "
+              "and every component plug: commits listed under a build match, are contained in it and the build is a tagged/head "
+              "commit new in the branch (only_matching, no_nonmatching), no earlier build of the branch contains the commit "
+              "(under_minimal_build), a matching commit contained in some build of the branch is listed (exactly_once) and at most "
+              "once anywhere in the branch (at_most_once), 'not merged' lists exactly the matching commits of lower-sorted branches "
+              "not reachable from the head (not_merged_exact), branches are read in a strict weak (total) order, numeric-aware, "
+              "release below master (order_*), and the report shows them reversed without empty branches (report_branches). "
+              "model = code is established by a differential run of the compiled model against the real ak.ghist on synthetic "
+              "histories fed through tests/mock_git.py; an independent ancestor-set oracle judges the real reports.")
+LEVEL_NOTE = ("Trusted: Lean kernel (axioms propext, Classical.choice, Quot.sound), translator of the constants of ak/ghist.py "
+              "(separators, sentinel, master names, fake build numbers), adapter and mock git objects, sampled correspondence "
+              "(random DAGs 4-30 commits, 1-5 refs, exhaustive <=4 commits x 2 branches in thorough). Not modelled: commit times "
+              "(the property quantifies over histories inside the 30-day window), tag-name parsing (build numbers are passed to "
+              "the model as numbers; the real code parses the tag strings, incl. master-style tags completed from VERSION). The "
+              "theorems assume Hist.Topo (parents have smaller ids) and are conditional on the model returning a report (no "
+              "totality theorem); the model never failed on 480k generated histories.")
+TECHNIQUE = ("Lean 4: invariants of the two nested DFS (well-formedness, frontier = nearest report ancestors, coverage of "
+             "rcommits_bparents) proved through generic induction principles; translator for constants; correspondence + "
+             "ancestor-set oracle on random and exhaustive small histories")
